@@ -495,9 +495,9 @@ def parseExp0 : Nat → P Exp
       let t ← next
       match Num.classify t.str with
       | .int v => return .int v (← nowLocP)
-      | .flt => return .flt (← nowLocP)
-      | .notNumber => err (← preLocP) "not a number"; return .flt zeroLoc
-      | .panic => modify (fun s => { s with panic := true }); return .flt zeroLoc
+      | .flt => return .flt t.str (← nowLocP)
+      | .notNumber => err (← preLocP) "not a number"; return .flt [] zeroLoc
+      | .panic => modify (fun s => { s with panic := true }); return .flt [] zeroLoc
     | .lcurly => parseTable f
     | .kwFunction =>
       let _ ← next
